@@ -59,11 +59,12 @@ class Variables:
         self._variables.pop(name)
 
     def inline_variables(self, sql: str) -> str:
-        for name, value in self._variables.items():
-            sql = re.sub(rf"\${name}", value, sql, flags=re.IGNORECASE)
+        # single pass over the $name references of the original text: the longest name is matched, looked up
+        # case-insensitively, and its value is inserted as is (never rescanned or treated as a regex template)
+        def value_of(reference: re.Match) -> str:
+            name = reference.group(1).upper()
+            if name not in self._variables:
+                raise snowflake.connector.errors.ProgrammingError(msg=f"Session variable '${name}' does not exist")
+            return self._variables[name]
 
-        if remaining_variables := re.search(r"(?<!\$)\$\w+", sql):
-            raise snowflake.connector.errors.ProgrammingError(
-                msg=f"Session variable '{remaining_variables.group().upper()}' does not exist"
-            )
-        return sql
+        return re.sub(r"(?<!\$)\$(\w+)", value_of, sql)
